@@ -240,7 +240,83 @@ func (g *scriptGen) chain(kind string, n int) string {
 	return s
 }
 
+// syntax-only scripts: forms that need no valid pipeline (typed / template vars, @udf() links, property
+// identifiers without parentheses, expression statements, lists, chains on calls); judged on parse / format only
+func genSyntaxCase(r *kit.Rand) []string {
+	g := &scriptGen{r: r, e: &exprGen{r: r}}
+	var b strings.Builder
+	n := 1 + r.Intn(5)
+	for k := 0; k < n; k++ {
+		b.WriteString(g.comment(""))
+		switch r.Intn(9) {
+		case 0:
+			b.WriteString("var " + kit.Pick(r, []string{"t", "name", "x1"}) + " " + kit.Pick(r, []string{"string", "duration", "lambda", "list", "float", "int", "bool", "regex"}) + "\n")
+		case 1:
+			b.WriteString("var l" + fmt.Sprint(k) + " = [" + kit.Pick(r, []string{"", "a", "a, 'b', *", "'x',", "*, *", "host, 'dc'"}) + "]\n")
+		case 2:
+			b.WriteString("var e" + fmt.Sprint(k) + " = " + g.e.expr(1+r.Intn(2)) + "\n")
+		case 3:
+			b.WriteString("var f" + fmt.Sprint(k) + " = lambda: " + g.e.expr(1+r.Intn(2)) + "\n")
+		case 4:
+			b.WriteString("dbrp \"" + kit.Pick(r, []string{"db", "a b", "x\\\"y"}) + "\".\"" + kit.Pick(r, []string{"rp", "autogen"}) + "\"\n")
+		default:
+			head := kit.Pick(r, []string{"stream", "batch", "a", "src", "mk(1, 'x')", "f()"})
+			s := head
+			for j := 1 + r.Intn(4); j > 0; j-- {
+				s += "\n    " + g.comment("    ")
+				arg := func() string {
+					switch r.Intn(7) {
+					case 0:
+						return "lambda: " + g.e.expr(r.Intn(2))
+					case 1:
+						return "[" + kit.Pick(r, []string{"a", "'b', *", "x, 'y'"}) + "]"
+					case 2:
+						return "*"
+					case 3:
+						return g.str()
+					case 4:
+						return kit.Pick(r, identPool)
+					default:
+						return g.e.expr(r.Intn(2))
+					}
+				}
+				var as []string
+				for m := r.Intn(4); m > 0; m-- {
+					as = append(as, arg())
+				}
+				al := strings.Join(as, ", ")
+				if len(as) > 0 && r.Chance(1, 8) {
+					al += ","
+				}
+				switch r.Intn(6) {
+				case 0:
+					s += "@" + kit.Pick(r, []string{"udf", "myFunc"}) + "(" + al + ")"
+				case 1:
+					s += "." + kit.Pick(r, []string{"flag", "prop"})
+				case 2:
+					s += "@" + kit.Pick(r, []string{"dyn"})
+				case 3:
+					s += "." + kit.Pick(r, []string{"period", "as", "field"}) + "(" + al + ")"
+				default:
+					s += "|" + kit.Pick(r, []string{"where", "eval", "node"}) + "(" + al + ")"
+				}
+			}
+			if r.Chance(1, 3) {
+				s = "var v" + fmt.Sprint(k) + " = " + s
+			}
+			b.WriteString(s + "\n")
+		}
+		if r.Chance(1, 3) {
+			b.WriteString("\n")
+		}
+	}
+	return []string{"script " + kit.Esc(b.String()), "sfmt", "sreparse", "sfmt", "sreparse", "sfmt"}
+}
+
 func genScriptCase(r *kit.Rand, i int) []string {
+	if i%5 == 4 {
+		return genSyntaxCase(r)
+	}
 	g := &scriptGen{r: r, e: &exprGen{r: r}}
 	g.edge = "stream"
 	if i%3 == 2 {
